@@ -212,4 +212,221 @@ theorem cubeQuads_outward_aux {w h d : ℝ} (hw : 0 < w) (hh : 0 < h) (hd : 0 < 
   · simp [cubeQuadsPos, cubeQuadsPt, cubeQuadsCornerTable, cornerPos, det3, V3.Dot, V3.Cross, V3.New]
     nlinarith [key]
 
+/-! ### capped cylinder over ℝ -/
+
+/-- angle of column `k` -/
+noncomputable def angOf (S k : Nat) : ℝ := (1 / (S : ℝ) * 2 * π) * (k : ℝ)
+
+theorem angleIncrement_real (S : Nat) : (angleIncrement S : ℝ) = 1 / (S : ℝ) * 2 * π := by
+  simp [angleIncrement]
+
+theorem mem_cylinderTris {S : Nat} {t : Tri} : t ∈ cylinderTris S false false ↔
+    (∃ i, i < S ∧ (t = (2 * i + 1, 2 * i, 2 * i + 2) ∨ t = (2 * i + 1, 2 * i + 2, 2 * i + 3))) ∨
+    ((∃ i, i < S - 1 ∧ t = (i + cylinderSideNV S, S + cylinderSideNV S, i + 1 + cylinderSideNV S)) ∨
+      t = (S - 1 + cylinderSideNV S, S + cylinderSideNV S, 0 + cylinderSideNV S)) ∨
+    ((∃ i, i < S - 1 ∧ t = (i + (cylinderSideNV S + circleNV S), S + (cylinderSideNV S + circleNV S),
+        i + 1 + (cylinderSideNV S + circleNV S))) ∨
+      t = (S - 1 + (cylinderSideNV S + circleNV S), S + (cylinderSideNV S + circleNV S),
+        0 + (cylinderSideNV S + circleNV S))) := by
+  simp only [cylinderTris, cylinderSideTris, shift, circleTris, Bool.false_eq_true, if_false, List.mem_append,
+    List.mem_flatMap, List.mem_map, List.mem_range, List.mem_cons, List.not_mem_nil, or_false, List.map_append,
+    List.map_map, List.map_cons, List.map_nil, Function.comp, or_assoc]
+  constructor
+  · rintro (h | ⟨i, hi, rfl⟩ | h | ⟨i, hi, rfl⟩ | h)
+    · exact Or.inl h
+    · exact Or.inr (Or.inl ⟨i, hi, rfl⟩)
+    · exact Or.inr (Or.inr (Or.inl h))
+    · exact Or.inr (Or.inr (Or.inr (Or.inl ⟨i, hi, rfl⟩)))
+    · exact Or.inr (Or.inr (Or.inr (Or.inr h)))
+  · rintro (h | ⟨i, hi, rfl⟩ | h | ⟨i, hi, rfl⟩ | h)
+    · exact Or.inl h
+    · exact Or.inr (Or.inl ⟨i, hi, rfl⟩)
+    · exact Or.inr (Or.inr (Or.inl h))
+    · exact Or.inr (Or.inr (Or.inr (Or.inl ⟨i, hi, rfl⟩)))
+    · exact Or.inr (Or.inr (Or.inr (Or.inr h)))
+/-- rim point at angle `a`, height `y` -/
+noncomputable def cpos (r a y : ℝ) : V3 ℝ := ⟨cos a * r, y, sin a * r⟩
+/-- the bottom cap's rim point (circle rotated by π about X) -/
+noncomputable def cposB (r a y : ℝ) : V3 ℝ := ⟨cos a * r, y, -(sin a * r)⟩
+
+theorem cylPos_side {S i : Nat} (r H : ℝ) (hi : i ≤ S) :
+    cylinderPos r H S (2 * i) = cpos r (angOf S i) (H / 2) ∧
+    cylinderPos r H S (2 * i + 1) = cpos r (angOf S i) (-(H / 2)) := by
+  have a1 : 2 * i < 2 * S + 2 := by omega
+  have a2 : 2 * i + 1 < 2 * S + 2 := by omega
+  have a3 : 2 * i / 2 = i := by omega
+  have a4 : (2 * i + 1) / 2 = i := by omega
+  have a5 : 2 * i % 2 = 0 := by omega
+  simp [cylinderPos, a1, a2, a3, a4, a5, cpos, angOf, angleIncrement_real, V3.New]
+
+theorem cylPos_top {S k : Nat} (r H : ℝ) (hk : k < S) :
+    cylinderPos r H S (k + cylinderSideNV S) = cpos r (angOf S k) (H / 2) := by
+  have a1 : ¬ (k + (S * 2 + 2) < 2 * S + 2) := by omega
+  have a2 : k + (S * 2 + 2) < 3 * S + 2 := by omega
+  have a3 : k + (S * 2 + 2) - (2 * S + 2) = k := by omega
+  simp [cylinderPos, cylinderSideNV, a1, a2, a3, cpos, angOf, angleIncrement_real, V3.New]
+
+theorem cylPos_topc (S : Nat) (r H : ℝ) : cylinderPos r H S (S + cylinderSideNV S) = ⟨0, H / 2, 0⟩ := by
+  have a3 : S + (S * 2 + 2) = 3 * S + 2 := by omega
+  have a1 : ¬ (3 * S + 2 < 2 * S + 2) := by omega
+  simp [cylinderPos, cylinderSideNV, a3, a1, V3.New]
+
+theorem cylPos_bot {S k : Nat} (r H : ℝ) (hk : k < S) :
+    cylinderPos r H S (k + (cylinderSideNV S + circleNV S)) = cposB r (angOf S k) (-(H / 2)) := by
+  have a1 : ¬ (k + (S * 2 + 2 + (S + 1)) < 2 * S + 2) := by omega
+  have a2 : ¬ (k + (S * 2 + 2 + (S + 1)) < 3 * S + 2) := by omega
+  have a3 : ¬ (k + (S * 2 + 2 + (S + 1)) = 3 * S + 2) := by omega
+  have a4 : k + (S * 2 + 2 + (S + 1)) < 4 * S + 3 := by omega
+  have a5 : k + (S * 2 + 2 + (S + 1)) - (3 * S + 3) = k := by omega
+  simp [cylinderPos, cylinderSideNV, circleNV, a1, a2, a3, a4, a5, cposB, angOf, angleIncrement_real, V3.New]
+
+theorem cylPos_botc (S : Nat) (r H : ℝ) :
+    cylinderPos r H S (S + (cylinderSideNV S + circleNV S)) = ⟨0, -(H / 2), 0⟩ := by
+  have a1 : ¬ (S + (S * 2 + 2 + (S + 1)) < 2 * S + 2) := by omega
+  have a2 : ¬ (S + (S * 2 + 2 + (S + 1)) < 3 * S + 2) := by omega
+  have a3 : ¬ (S + (S * 2 + 2 + (S + 1)) = 3 * S + 2) := by omega
+  have a4 : ¬ (S + (S * 2 + 2 + (S + 1)) < 4 * S + 3) := by omega
+  simp [cylinderPos, cylinderSideNV, circleNV, a1, a2, a3, a4, V3.New]
+
+theorem det_side1 (r y a1 a2 : ℝ) :
+    det3 (cpos r a1 (-y)) (cpos r a1 y) (cpos r a2 y) = 2 * y * r ^ 2 * sin (a2 - a1) := by
+  simp only [det3, cpos, V3.Dot, V3.Cross, sin_sub]; ring
+theorem det_side2 (r y a1 a2 : ℝ) :
+    det3 (cpos r a1 (-y)) (cpos r a2 y) (cpos r a2 (-y)) = 2 * y * r ^ 2 * sin (a2 - a1) := by
+  simp only [det3, cpos, V3.Dot, V3.Cross, sin_sub]; ring
+theorem det_top (r y a1 a2 : ℝ) :
+    det3 (cpos r a1 y) ⟨0, y, 0⟩ (cpos r a2 y) = y * r ^ 2 * sin (a2 - a1) := by
+  simp only [det3, cpos, V3.Dot, V3.Cross, sin_sub]; ring
+theorem det_bot (r y a1 a2 : ℝ) :
+    det3 (cposB r a1 (-y)) ⟨0, -y, 0⟩ (cposB r a2 (-y)) = y * r ^ 2 * sin (a2 - a1) := by
+  simp only [det3, cposB, V3.Dot, V3.Cross, sin_sub]; ring
+
+theorem sin_dang {S i : Nat} (hS : 3 ≤ S) : sin (angOf S (i + 1) - angOf S i) = sin (2 * π / S) := by
+  have hC0 : (S : ℝ) ≠ 0 := by positivity
+  congr 1; simp only [angOf]; push_cast; field_simp; ring
+
+theorem sin_dang_last {S : Nat} (hS : 3 ≤ S) : sin (angOf S 0 - angOf S (S - 1)) = sin (2 * π / S) := by
+  have hC0 : (S : ℝ) ≠ 0 := by positivity
+  rw [← sin_add_two_pi]
+  congr 1
+  have : ((S - 1 : ℕ) : ℝ) = (S : ℝ) - 1 := by rw [Nat.cast_sub (by omega)]; simp
+  simp only [angOf, this]; push_cast; field_simp; ring
+
+theorem cylinder_outward_aux {S : Nat} {r H : ℝ} (hr : 0 < r) (hH : 0 < H) (hS : 3 ≤ S) :
+    OutwardAt (cylinderPos r H S) O3 (cylinderTris S false false) := by
+  have hsin := sin_dtheta_pos hS
+  have hy : 0 < H / 2 := by positivity
+  have k1 : 0 < 2 * (H / 2) * r ^ 2 * sin (2 * π / S) := by positivity
+  have k2 : 0 < (H / 2) * r ^ 2 * sin (2 * π / S) := by positivity
+  intro t ht
+  simp only [sub_O3, n2a_real, Nat.cast_zero]
+  rcases mem_cylinderTris.1 ht with ⟨i, hi, rfl | rfl⟩ | (⟨i, hi, rfl⟩ | rfl) | (⟨i, hi, rfl⟩ | rfl)
+  · rw [show 2 * i + 2 = 2 * (i + 1) by ring, (cylPos_side r H (show i ≤ S by omega)).1,
+      (cylPos_side r H (show i ≤ S by omega)).2, (cylPos_side r H (show i + 1 ≤ S by omega)).1, det_side1, sin_dang hS]
+    exact k1
+  · rw [show 2 * i + 3 = 2 * (i + 1) + 1 by ring, show 2 * i + 2 = 2 * (i + 1) by ring,
+      (cylPos_side r H (show i ≤ S by omega)).2, (cylPos_side r H (show i + 1 ≤ S by omega)).1,
+      (cylPos_side r H (show i + 1 ≤ S by omega)).2, det_side2, sin_dang hS]
+    exact k1
+  · rw [cylPos_top r H (show i < S by omega), cylPos_top r H (show i + 1 < S by omega), cylPos_topc, det_top,
+      sin_dang hS]
+    exact k2
+  · rw [cylPos_top r H (show S - 1 < S by omega), cylPos_top r H (show 0 < S by omega), cylPos_topc, det_top,
+      sin_dang_last hS]
+    exact k2
+  · rw [cylPos_bot r H (show i < S by omega), cylPos_bot r H (show i + 1 < S by omega), cylPos_botc, det_bot,
+      sin_dang hS]
+    exact k2
+  · rw [cylPos_bot r H (show S - 1 < S by omega), cylPos_bot r H (show 0 < S by omega), cylPos_botc, det_bot,
+      sin_dang_last hS]
+    exact k2
+/-- un-normalised side normal `(cos a, c, sin a)` -/
+noncomputable def nvec (a c : ℝ) : V3 ℝ := ⟨cos a, c, sin a⟩
+
+theorem cylNrm_side {S i : Nat} (hi : i ≤ S) :
+    (cylinderNormal S (2 * i) : V3 ℝ) = (nvec (angOf S i) (1 / 10)).Normalized ∧
+    (cylinderNormal S (2 * i + 1) : V3 ℝ) = (nvec (angOf S i) (-(1 / 10))).Normalized := by
+  have a1 : 2 * i < 2 * S + 2 := by omega
+  have a2 : 2 * i + 1 < 2 * S + 2 := by omega
+  have a3 : 2 * i / 2 = i := by omega
+  have a4 : (2 * i + 1) / 2 = i := by omega
+  have a5 : 2 * i % 2 = 0 := by omega
+  simp [cylinderNormal, a1, a2, a3, a4, a5, nvec, angOf, angleIncrement_real, V3.New]
+
+theorem cylNrm_top {S k : Nat} (hk : k ≤ S) : (cylinderNormal S (k + cylinderSideNV S) : V3 ℝ) = ⟨0, 1, 0⟩ := by
+  have a1 : ¬ (k + (S * 2 + 2) < 2 * S + 2) := by omega
+  have a2 : k + (S * 2 + 2) < 3 * S + 3 := by omega
+  simp [cylinderNormal, cylinderSideNV, a1, a2, V3.New]
+
+theorem cylNrm_bot {S k : Nat} (_hk : k ≤ S) :
+    (cylinderNormal S (k + (cylinderSideNV S + circleNV S)) : V3 ℝ) = ⟨0, -1, 0⟩ := by
+  have a1 : ¬ (k + (S * 2 + 2 + (S + 1)) < 2 * S + 2) := by omega
+  have a2 : ¬ (k + (S * 2 + 2 + (S + 1)) < 3 * S + 3) := by omega
+  simp [cylinderNormal, cylinderSideNV, circleNV, a1, a2, V3.New]
+
+theorem dot_side1 (r y a1 a2 c : ℝ) :
+    (nvec a1 c).Dot (faceNormal (cpos r a1 (-y)) (cpos r a1 y) (cpos r a2 y)) = 2 * y * r * sin (a2 - a1) ∧
+    (nvec a2 c).Dot (faceNormal (cpos r a1 (-y)) (cpos r a1 y) (cpos r a2 y)) = 2 * y * r * sin (a2 - a1) := by
+  simp only [faceNormal, nvec, cpos, V3.Dot, V3.Cross, V3.Sub, sin_sub]
+  constructor <;> ring
+
+theorem dot_side2 (r y a1 a2 c : ℝ) :
+    (nvec a1 c).Dot (faceNormal (cpos r a1 (-y)) (cpos r a2 y) (cpos r a2 (-y))) = 2 * y * r * sin (a2 - a1) ∧
+    (nvec a2 c).Dot (faceNormal (cpos r a1 (-y)) (cpos r a2 y) (cpos r a2 (-y))) = 2 * y * r * sin (a2 - a1) := by
+  simp only [faceNormal, nvec, cpos, V3.Dot, V3.Cross, V3.Sub, sin_sub]
+  constructor <;> ring
+
+theorem dot_top (r y a1 a2 : ℝ) :
+    (⟨0, 1, 0⟩ : V3 ℝ).Dot (faceNormal (cpos r a1 y) ⟨0, y, 0⟩ (cpos r a2 y)) = r ^ 2 * sin (a2 - a1) := by
+  simp only [faceNormal, cpos, V3.Dot, V3.Cross, V3.Sub, sin_sub]; ring
+
+theorem dot_bot (r y a1 a2 : ℝ) :
+    (⟨0, -1, 0⟩ : V3 ℝ).Dot (faceNormal (cposB r a1 (-y)) ⟨0, -y, 0⟩ (cposB r a2 (-y))) = r ^ 2 * sin (a2 - a1) := by
+  simp only [faceNormal, cposB, V3.Dot, V3.Cross, V3.Sub, sin_sub]; ring
+
+theorem cylinder_normals_outward_aux {S : Nat} {r H : ℝ} (hr : 0 < r) (hH : 0 < H) (hS : 3 ≤ S) :
+    NormalsOutward (cylinderPos r H S) (cylinderNormal S) (cylinderTris S false false) := by
+  have hsin := sin_dtheta_pos hS
+  have hy : 0 < H / 2 := by positivity
+  have k1 : 0 < 2 * (H / 2) * r * sin (2 * π / S) := by positivity
+  have k2 : 0 < r ^ 2 * sin (2 * π / S) := by positivity
+  intro t ht
+  simp only [n2a_real, Nat.cast_zero]
+  rcases mem_cylinderTris.1 ht with ⟨i, hi, rfl | rfl⟩ | (⟨i, hi, rfl⟩ | rfl) | (⟨i, hi, rfl⟩ | rfl)
+  · have d := dot_side1 r (H / 2) (angOf S i) (angOf S (i + 1))
+    simp only [show 2 * i + 2 = 2 * (i + 1) by ring, (cylPos_side r H (show i ≤ S by omega)).1,
+      (cylPos_side r H (show i ≤ S by omega)).2, (cylPos_side r H (show i + 1 ≤ S by omega)).1,
+      (cylNrm_side (show i ≤ S by omega)).1, (cylNrm_side (show i ≤ S by omega)).2,
+      (cylNrm_side (show i + 1 ≤ S by omega)).1]
+    refine ⟨normalized_dot_pos _ _ ?_, normalized_dot_pos _ _ ?_, normalized_dot_pos _ _ ?_⟩
+    · rw [(d _).1, sin_dang hS]; exact k1
+    · rw [(d _).1, sin_dang hS]; exact k1
+    · rw [(d _).2, sin_dang hS]; exact k1
+  · have d := dot_side2 r (H / 2) (angOf S i) (angOf S (i + 1))
+    simp only [show 2 * i + 3 = 2 * (i + 1) + 1 by ring, show 2 * i + 2 = 2 * (i + 1) by ring,
+      (cylPos_side r H (show i ≤ S by omega)).2, (cylPos_side r H (show i + 1 ≤ S by omega)).1,
+      (cylPos_side r H (show i + 1 ≤ S by omega)).2,
+      (cylNrm_side (show i ≤ S by omega)).2, (cylNrm_side (show i + 1 ≤ S by omega)).1,
+      (cylNrm_side (show i + 1 ≤ S by omega)).2]
+    refine ⟨normalized_dot_pos _ _ ?_, normalized_dot_pos _ _ ?_, normalized_dot_pos _ _ ?_⟩
+    · rw [(d _).1, sin_dang hS]; exact k1
+    · rw [(d _).2, sin_dang hS]; exact k1
+    · rw [(d _).2, sin_dang hS]; exact k1
+  · simp only [cylPos_top r H (show i < S by omega), cylPos_top r H (show i + 1 < S by omega), cylPos_topc,
+      cylNrm_top (show i ≤ S by omega), cylNrm_top (show i + 1 ≤ S by omega), cylNrm_top (le_refl S), dot_top,
+      sin_dang hS]
+    exact ⟨k2, k2, k2⟩
+  · simp only [cylPos_top r H (show S - 1 < S by omega), cylPos_top r H (show 0 < S by omega), cylPos_topc,
+      cylNrm_top (show S - 1 ≤ S by omega), cylNrm_top (show 0 ≤ S by omega), cylNrm_top (le_refl S), dot_top,
+      sin_dang_last hS]
+    exact ⟨k2, k2, k2⟩
+  · simp only [cylPos_bot r H (show i < S by omega), cylPos_bot r H (show i + 1 < S by omega), cylPos_botc,
+      cylNrm_bot (show i ≤ S by omega), cylNrm_bot (show i + 1 ≤ S by omega), cylNrm_bot (le_refl S), dot_bot,
+      sin_dang hS]
+    exact ⟨k2, k2, k2⟩
+  · simp only [cylPos_bot r H (show S - 1 < S by omega), cylPos_bot r H (show 0 < S by omega), cylPos_botc,
+      cylNrm_bot (show S - 1 ≤ S by omega), cylNrm_bot (show 0 ≤ S by omega), cylNrm_bot (le_refl S), dot_bot,
+      sin_dang_last hS]
+    exact ⟨k2, k2, k2⟩
+
 end PolyVerif.Solids
